@@ -1,16 +1,24 @@
 """C26: Pub/Sub delivers exactly the subscribed messages in order; Receive return values; SetPubSubHooks channels."""
+import threading
 from checks import pipecommon, subscommon
 LEVEL = 'model_checking'
 
 
 def run(ctx):
-    pipecommon.run_family(
-        ctx, 'C26',
-        mc=['MC_pubsub.cfg', 'MC_dedicated.cfg'],
-        negs=[('MC_neg_unsubfirst.cfg', 'AllReturnedAtQuiesce'), ('MC_neg_skipmsg.cfg', 'PubSubOrder')],
-        gens=[('Genpub_q.cfg', 60, 600)],
-        modes=['pubsub', 'dedicated'],
-        neg_traces=['drop-callback', 'nil-return-without-unsubscribe', 'hook-channel-not-closed'],
-        runs_quick=3, runs_thorough=30)
-    # the subscription registry behind Receive (pubsub.go): Subs.tla + hook-level trace validation of the real `subs`
-    subscommon.run(ctx)
+    # the subscription registry behind Receive (pubsub.go): Subs.tla + hook-level trace validation of the real `subs`;
+    # independent of the client-level part below, so the two run side by side
+    t = threading.Thread(target=subscommon.run, args=(ctx,))
+    t.start()
+    try:
+        pipecommon.run_family(
+            ctx, 'C26',
+            mc=['MC_pubsub.cfg', 'MC_pubsub_own.cfg', 'MC_dedicated.cfg'],
+            negs=[('MC_neg_unsubfirst.cfg', 'AllReturnedAtQuiesce'), ('MC_neg_skipmsg.cfg', 'PubSubOrder'),
+                  ('MC_neg_unsubwrong.cfg', 'ReceiveReturn')],
+            # Genpubown: Receives of own channels that start after another one was ended by the server while a third is alive
+            gens=[('Genpub_q.cfg', 50, 600), ('Genpubown_q.cfg', 40, 400)],
+            modes=['pubsub', 'dedicated'],
+            neg_traces=['drop-callback', 'nil-return-without-unsubscribe', 'hook-channel-not-closed'],
+            runs_quick=3, runs_thorough=30, hookseq=True)
+    finally:
+        t.join()
